@@ -10,3 +10,8 @@ import AGV.Props.C06
 #print axioms AGV.Props.C06.c06_witness_omitted_variable_skips_default
 #print axioms AGV.Props.C06.c06_witness_null_becomes_singleton_list
 #print axioms AGV.Props.C06.c06_witness_variable_values_not_coerced
+#print axioms AGV.Props.C06.c06_value_wf
+#print axioms AGV.Props.C06.c06_typed_wf
+#print axioms AGV.Props.C06.c06_value_false
+#print axioms AGV.Props.C06.c06_typed_false
+#print axioms AGV.Props.C06.c06_request_false
